@@ -5,10 +5,12 @@
 (* (Start, one Pop per state taken from the work list) plus the automaton  *)
 (* returned must be behaviours of the model: every logged Pop must take a  *)
 (* state the model has on its work list, and the returned automaton must   *)
-(* be the model's `out` for SOME order of the rules inside every Pop (that *)
-(* order, the missing-children sets, the recorded rules, the reached set   *)
-(* and the `remaining` counter are NOT logged).  Evidence only (DESIGN     *)
-(* 2.7).                                                                   *)
+(* be the model's `out`.  The order in which a Pop looks at the rules is   *)
+(* logged too (Visit events, folded into the Pop as `ord`): it must be an  *)
+(* order over exactly the rules the model has waiting for that state, cut  *)
+(* short only by the model's own early exit.  The missing-children sets,   *)
+(* the recorded rules, the reached set and the `remaining` counter are NOT *)
+(* logged.  Evidence only (DESIGN 2.7).                                    *)
 (***************************************************************************)
 EXTENDS Candidate, IOUtils
 Tr == ndJsonDeserialize(IOEnv.TRACE)
@@ -25,7 +27,11 @@ TStart == /\ IsEvent("Start")
           /\ LET X == ToAut(E.A)  b == Begin(X) IN
              /\ A' = X /\ out' = EmptyAut /\ done' = FALSE /\ found' = FALSE
              /\ reached' = b.reached /\ work' = b.work /\ miss' = b.miss /\ recorded' = b.recorded /\ remaining' = b.remaining
-TPop == IsEvent("Pop") /\ PopOf(E.q)
+\* the logged order: distinct rules the popped state is a missing child of
+TPop == /\ IsEvent("Pop")
+        /\ LET ord == [i \in 1..Len(E.ord) |-> <<E.ord[i][1], E.ord[i][2], E.ord[i][3]>>] IN
+           /\ \A i \in 1..Len(ord) : ord[i] \in Users(E.q) /\ \A j \in 1..Len(ord) : ord[i] = ord[j] => i = j
+           /\ PopOrd(E.q, ord)
 TResult == /\ IsEvent("Result")
            /\ Finish
            /\ LET R == ToAut(E.R) IN out'.fin = R.fin /\ out'.rules = R.rules
